@@ -19,7 +19,7 @@ def one(pid, m):
         os.makedirs(root + "/verif/replays", exist_ok=True)
         path = os.path.join(root, "repo", m["file"])
         src = open(path).read()
-        new, c = re.subn(m["pattern"], m["replacement"], src, count=m.get("count", 1), flags=re.S)
+        new, c = re.subn(m["pattern"], lambda _m: m["replacement"], src, count=m.get("count", 1), flags=re.S)
         if c < 1:
             return m["name"], "DID-NOT-APPLY"
         open(path, "w").write(new)
